@@ -97,7 +97,8 @@ GenLeaf(ty, scope, s) ==
       cs == CapsOf(scope, k)
       pool == PoolOfTy(ty)
       c == Ch(s, 10)
-  IN IF c <= 4 /\ cs # <<>> THEN G(CapRef(cs[Ch(s1, Len(cs))], s2), Rnd(s2))
+  IN IF Profile = "fold" /\ Coin(s1, 3, 5) THEN G(Lit(ty, s1), s2)        \* literal-rich: constant sub-expressions everywhere
+     ELSE IF c <= 4 /\ cs # <<>> THEN G(CapRef(cs[Ch(s1, Len(cs))], s2), Rnd(s2))
      ELSE IF c <= 6 THEN
           LET d == pool[Ch(s1, Len(pool))]  ix == GenIdx(d.keys, scope, 0, s2)
           IN G([n |-> "var", m |-> d.name, idx |-> ix.x], ix.s)
@@ -204,6 +205,16 @@ ScopeElse(pats, p, outer) ==
   LET keep == SelectSeq(outer, LAMBDA c : Abs(c.g) > Len(pats[p].caps) \/ c.name # "")
   IN [i \in 1..Len(keep) |-> IF Abs(keep[i].g) <= Len(pats[p].caps) THEN [keep[i] EXCEPT !.g = -Abs(keep[i].g)] ELSE keep[i]]
 
+\* what a decorated block sees of the decorator's scope at `next`: checker.go flattens the scope with
+\* Scope.CopyFrom, which re-inserts every symbol under its current name - a NAMED group keeps only its name
+AtNext(scope) == [i \in 1..Len(scope) |-> IF scope[i].name # "" THEN [scope[i] EXCEPT !.g = -Abs(scope[i].g)] ELSE scope[i]]
+
+\* scope `inner` laid over scope `outer`: numbered captures of inner shadow outer ones of the same index
+Over(inner, outer) ==
+  LET idx == {Abs(inner[i].g) : i \in {j \in 1..Len(inner) : inner[j].g > 0}}
+      keep == SelectSeq(outer, LAMBDA c : Abs(c.g) \notin idx \/ c.name # "")
+  IN inner \o [i \in 1..Len(keep) |-> IF Abs(keep[i].g) \in idx THEN [keep[i] EXCEPT !.g = -Abs(keep[i].g)] ELSE keep[i]]
+
 \* condition: returns [x = [c, scope], s]
 GenCond(pats, scope, s) ==
   LET s1 == Rnd(s)  s2 == Rnd(s1)
@@ -264,46 +275,51 @@ GenStmt(ctx, scope, depth, indeco, s) ==
   LET s1 == Rnd(s)  s2 == Rnd(s1)
       c == Ch(s, 20)
       leafOnly == depth >= 3 IN
-  IF indeco /\ (leafOnly \/ c = 20) THEN G([st |-> [n |-> "next"], used |-> TRUE], s1)
+  IF indeco /\ (leafOnly \/ c = 20) THEN G([st |-> [n |-> "next"], used |-> TRUE, ns |-> AtNext(scope)], s1)
   ELSE IF (c <= 7 /\ ~leafOnly) THEN     \* conditional with optional else
        LET cd == GenCond(ctx.pats, scope, s1)
            tb == GenBlock(ctx, cd.x.scope, depth + 1, indeco, 0, cd.s)
            he == Coin(tb.s, 1, 3)
-           eb == IF he THEN GenBlock(ctx, cd.x.escope, depth + 1, FALSE, 0, Rnd(tb.s)) ELSE G([b |-> <<>>, used |-> FALSE], Rnd(tb.s))
-       IN G([st |-> [n |-> "cond", c |-> cd.x.c, t |-> tb.x.b, e |-> eb.x.b, he |-> he], used |-> tb.x.used], eb.s)
+           eb == IF he THEN GenBlock(ctx, cd.x.escope, depth + 1, FALSE, 0, Rnd(tb.s)) ELSE G([b |-> <<>>, used |-> FALSE, ns |-> <<>>], Rnd(tb.s))
+       IN G([st |-> [n |-> "cond", c |-> cd.x.c, t |-> tb.x.b, e |-> eb.x.b, he |-> he], used |-> tb.x.used, ns |-> tb.x.ns], eb.s)
   ELSE IF (c = 8 /\ ~leafOnly) THEN      \* otherwise
        LET tb == GenBlock(ctx, scope, depth + 1, indeco, 0, s1)
-       IN G([st |-> [n |-> "otherwise", t |-> tb.x.b], used |-> tb.x.used], tb.s)
+       IN G([st |-> [n |-> "otherwise", t |-> tb.x.b], used |-> tb.x.used, ns |-> tb.x.ns], tb.s)
   ELSE IF (c = 9 /\ ~leafOnly /\ ctx.decos # <<>> /\ ~indeco /\ ~ctx.indef) THEN   \* decorated block
-       LET tb == GenBlock(ctx, scope, depth + 1, FALSE, 0, s1)
-       IN G([st |-> [n |-> "deco", name |-> ctx.decos[Ch(s1, Len(ctx.decos))], t |-> tb.x.b], used |-> FALSE], tb.s)
+       \* the decorated block is checked in the scope the decorator has at its `next` (checker.go DecoStmt:
+       \* the definition's flattened scope is copied in front of the use site's scope)
+       \* (no nested use of a decorator inside a decorated block: known finding DEV_NestedDecoratorRegexIndex)
+       LET tb == GenBlock([ctx EXCEPT !.decos = <<>>], Over(ctx.dscope, scope), depth + 1, FALSE, 0, s1)
+       IN G([st |-> [n |-> "deco", name |-> ctx.decos[Ch(s1, Len(ctx.decos))], t |-> tb.x.b], used |-> FALSE, ns |-> <<>>], tb.s)
   ELSE IF c = 10 THEN                     \* del
        LET d == PoolDim[Ch(s1, Len(PoolDim))]  ix == GenIdx(d.keys, scope, 0, s2)
-       IN G([st |-> [n |-> "del", m |-> d.name, idx |-> ix.x], used |-> FALSE], ix.s)
+       IN G([st |-> [n |-> "del", m |-> d.name, idx |-> ix.x], used |-> FALSE, ns |-> <<>>], ix.s)
   ELSE IF c = 11 THEN                     \* del after
        LET d == PoolDim[Ch(s1, Len(PoolDim))]  ix == GenIdx(d.keys, scope, 0, s2)
-       IN G([st |-> [n |-> "delafter", m |-> d.name, idx |-> ix.x, h |-> Ch(ix.s, 3)], used |-> FALSE], Rnd(ix.s))
-  ELSE IF c = 12 /\ Coin(s1, 1, 3) THEN G([st |-> [n |-> "stop"], used |-> FALSE], s2)
-  ELSE IF c = 13 /\ Profile = "time" THEN LET r == GenStrptime(scope, s1) IN G([st |-> r.x, used |-> FALSE], r.s)
-  ELSE LET w == GenWrite(scope, IF depth >= 2 THEN 0 ELSE 1, s1) IN G([st |-> w.x, used |-> FALSE], w.s)
+       IN G([st |-> [n |-> "delafter", m |-> d.name, idx |-> ix.x, h |-> Ch(ix.s, 3)], used |-> FALSE, ns |-> <<>>], Rnd(ix.s))
+  ELSE IF c = 12 /\ Coin(s1, 1, 3) THEN G([st |-> [n |-> "stop"], used |-> FALSE, ns |-> <<>>], s2)
+  ELSE IF c = 13 /\ Profile = "time" THEN LET r == GenStrptime(scope, s1) IN G([st |-> r.x, used |-> FALSE, ns |-> <<>>], r.s)
+  ELSE LET w == GenWrite(scope, IF depth >= 2 THEN 0 ELSE 1, s1) IN G([st |-> w.x, used |-> FALSE, ns |-> <<>>], w.s)
 
 \* a block of 1..3 statements; if a `next` is owed (indeco) exactly one statement consumes it
 GenBlock(ctx, scope, depth, indeco, k, s) ==
   LET n == IF depth = 0 THEN 2 + Ch(s, 3) ELSE Ch(s, 3) IN
-  IF k >= n THEN G([b |-> <<>>, used |-> FALSE], s)
+  IF k >= n THEN G([b |-> <<>>, used |-> FALSE, ns |-> <<>>], s)
   ELSE LET owe == indeco /\ k = n - 1            \* the last statement must take the `next` if nobody did
            st == GenStmt(ctx, scope, depth, indeco, Rnd(s))
            \* statements after the one that used `next` no longer owe it
            rest == GenBlockFrom(ctx, scope, depth, indeco /\ ~st.x.used, k + 1, n, st.s)
-       IN G([b |-> <<st.x.st>> \o rest.x.b, used |-> st.x.used \/ rest.x.used], rest.s)
+       IN G([b |-> <<st.x.st>> \o rest.x.b, used |-> st.x.used \/ rest.x.used,
+             ns |-> IF st.x.used THEN st.x.ns ELSE rest.x.ns], rest.s)
 
 GenBlockFrom(ctx, scope, depth, indeco, k, n, s) ==
   IF k >= n THEN
        \* still owed: append the `next`
-       IF indeco THEN G([b |-> << [n |-> "next"] >>, used |-> TRUE], s) ELSE G([b |-> <<>>, used |-> FALSE], s)
+       IF indeco THEN G([b |-> << [n |-> "next"] >>, used |-> TRUE, ns |-> AtNext(scope)], s) ELSE G([b |-> <<>>, used |-> FALSE, ns |-> <<>>], s)
   ELSE LET st == GenStmt(ctx, scope, depth, indeco, Rnd(s))
            rest == GenBlockFrom(ctx, scope, depth, indeco /\ ~st.x.used, k + 1, n, st.s)
-       IN G([b |-> <<st.x.st>> \o rest.x.b, used |-> st.x.used \/ rest.x.used], rest.s)
+       IN G([b |-> <<st.x.st>> \o rest.x.b, used |-> st.x.used \/ rest.x.used,
+             ns |-> IF st.x.used THEN st.x.ns ELSE rest.x.ns], rest.s)
 
 -----------------------------------------------------------------------------
 (* Metrics used by a program (only those are declared) *)
@@ -326,6 +342,14 @@ UsedS(st) ==
     [] st.n \in {"del", "delafter"} -> {st.m} \cup UsedEs(st.idx)
     [] st.n = "deco" -> UsedSs(st.t)
     [] OTHER -> {}
+
+RECURSIVE HasDeco(_)
+HasDeco(ss) == IF ss = <<>> THEN FALSE
+               ELSE LET st == Head(ss) IN
+                    \/ st.n = "deco"
+                    \/ (st.n = "cond" /\ (HasDeco(st.t) \/ HasDeco(st.e)))
+                    \/ (st.n = "otherwise" /\ HasDeco(st.t))
+                    \/ HasDeco(Tail(ss))
 
 \* metrics that some statement writes with a value of the metric's own type (this is what lets the
 \* compiler infer the declared type); metrics only read get a typing statement appended
@@ -376,13 +400,13 @@ GenCase(seed) ==
   LET s0 == Rnd(Rnd(seed + 7919))
       ps == GenPatterns(1 + Ch(s0, 3), <<>>, Rnd(s0))
       ndeco == IF Coin(ps.s, 1, 3) THEN 1 ELSE 0
-      ctx0 == [pats |-> ps.x, decos |-> <<>>, indef |-> TRUE]
-      db == IF ndeco = 1 THEN GenBlock(ctx0, <<>>, 1, TRUE, 0, Rnd(ps.s)) ELSE G([b |-> <<>>, used |-> FALSE], Rnd(ps.s))
+      ctx0 == [pats |-> ps.x, decos |-> <<>>, indef |-> TRUE, dscope |-> <<>>]
+      db == IF ndeco = 1 THEN GenBlock(ctx0, <<>>, 1, TRUE, 0, Rnd(ps.s)) ELSE G([b |-> <<>>, used |-> FALSE, ns |-> <<>>], Rnd(ps.s))
       decos == IF ndeco = 1 THEN << [name |-> "dec1", body |-> db.x.b] >> ELSE <<>>
-      ctx == [pats |-> ps.x, decos |-> IF ndeco = 1 THEN <<"dec1">> ELSE <<>>, indef |-> FALSE]
+      ctx == [pats |-> ps.x, decos |-> IF ndeco = 1 THEN <<"dec1">> ELSE <<>>, indef |-> FALSE, dscope |-> db.x.ns]
       bd == GenBlock(ctx, <<>>, 0, FALSE, 0, db.s)
       \* a defined decorator must be used (an unused one is a compile error): wrap the first statement
-      body0 == IF ndeco = 1 /\ ~(\E i \in 1..Len(bd.x.b) : bd.x.b[i].n = "deco")
+      body0 == IF ndeco = 1 /\ ~HasDeco(bd.x.b)
                THEN << [n |-> "deco", name |-> "dec1", t |-> <<Head(bd.x.b)>>] >> \o Tail(bd.x.b)
                ELSE bd.x.b
       used == UsedSs(body0) \cup (IF decos # <<>> THEN UsedSs(decos[1].body) ELSE {})
